@@ -20,6 +20,7 @@ IAM = "abtem.potentials.iam"
 
 ARRAY_CTORS = {"array", "asarray", "stack", "concatenate", "vstack", "hstack", "asanyarray"}
 MOD_FUNCS = {"mod", "remainder"}
+NONWRAP_FUNCS = {"minimum", "maximum", "clip", "abs", "where", "floor", "round", "rint", "ceil", "int32", "int64"}
 
 
 def _stmt_containing(func: ast.AST, expr: ast.AST) -> ast.stmt:
@@ -41,6 +42,7 @@ class _WrapAnalysis:
     def __init__(self, f: FuncInfo, df: DataFlow, array_name: str):
         self.f, self.df, self.array = f, df, array_name
         self.problems: list[str] = []
+        self._memo: dict = {}
 
     def axis_len(self, e: ast.AST, at: int) -> Optional[int]:
         """`shape[k]` / `array.shape[k]` / a name unpacked from `array.shape` / len(array) -> k."""
@@ -127,22 +129,36 @@ class _WrapAnalysis:
             rd = self.df.reaching(at, e.id)
             out = set()
             for d in rd:
-                if (d.node, e.id) in seen:
+                key = (d.node, e.id)
+                if key in self._memo:
+                    out |= self._memo[key]
                     continue
-                seen.add((d.node, e.id))
-                if d.kind != "assign" or d.value is None or not d.strong:
-                    self.problems.append(f"`{e.id}` reaches the scatter through a {d.kind} definition that is not a "
-                                         "plain assignment")
+                if key in seen:  # cyclic definition chain: contributes nothing new
+                    continue
+                seen.add(key)
+                if d.kind == "param":
+                    self.problems.append(f"`{e.id}` is a raw parameter")
                     out.add("RAW")
                     continue
+                if d.kind != "assign" or d.value is None or not d.strong:
+                    raise AnalysisError(f"{self.f.qualname}: index variable `{e.id}` has a {d.kind} definition "
+                                        "(in-place update / loop variable) the wrap analysis does not model")
                 st = self.df.cfg.nodes[d.node].ast
                 if isinstance(st, ast.Assign) and isinstance(st.targets[0], (ast.Tuple, ast.List)) and not isinstance(
                         st.value, (ast.Tuple, ast.List)):
+                    if isinstance(st.value, ast.Call):
+                        raise AnalysisError(f"{self.f.qualname}: `{e.id}` is unpacked from the call "
+                                            f"`{norm_text(st.value)[:50]}`")
                     self.problems.append(f"`{e.id}` is unpacked from `{norm_text(st.value)[:50]}`")
                     out.add("RAW")
                     continue
-                out |= self.axes(d.value, d.node, seen)
+                r = self.axes(d.value, d.node, seen)
+                self._memo[key] = r
+                out |= r
             return out or {"RAW"}
+        if isinstance(e, ast.Call) and last_attr(e) not in NONWRAP_FUNCS:
+            raise AnalysisError(f"{self.f.qualname}: index element `{norm_text(e)[:70]}` is produced by a call the "
+                                "analyser cannot see through")
         self.problems.append(f"`{norm_text(e)[:70]}` is not reduced modulo an axis length")
         return {"RAW"}
 
@@ -328,9 +344,9 @@ def _check_tile(ctx, f: FuncInfo) -> None:
     for k in (0, 1):
         nz = FlowNormalizer(df, at_ext)
         p = nz.norm(ext.elts[k])
-        own = Poly.atom(f"self.extent[{k}]")
+        own = nz.norm(ast.parse(f"self.extent[{k}]", mode="eval").body)
         fac = p * own.inverse()
-        if own.atoms() & fac.atoms() or any("extent" in a for a in fac.atoms()):
+        if any("extent" in a for a in fac.atoms()):
             ctx.violation(rule, f"{f.qualname}:extent[{k}]", f.loc(ext.elts[k]),
                           f"new extent component {k} `{norm_text(ext.elts[k])}` is not self.extent[{k}] times a "
                           f"repetition count (normal form {p.key()})", key_detail=f"extent-{k}")
